@@ -21,7 +21,7 @@ from checks.c15 import fork_bool, fork_choice
 from checks.common import TemplateObligation
 from lx.check import Obligation, Verdict
 from lx.engine import SymStr, Unsupported, sym_value
-from lx.lifted import Dump, LiftedScript, dump_runner, set_eq
+from lx.lifted import Dump, LiftedScript, dump_runner, set_eq, twin_lists
 from lx.tree import Names
 
 PID = "C05"
@@ -93,6 +93,7 @@ class SplitKernelOb(Obligation):
             got = helpers.split(SymStr.const("<script>"))
         finally:
             sqlparse.parse = real_parse
+        (got,) = twin_lists(got, phantom="SELECT 1")
         want = [p.value for p in pieces if p.kind in ("stmt", "comment_stmt")]
         ok = len(got) == len(want) and all(g is w or bool(g == w) for g, w in zip(got, want))
         return Verdict(ok, {"kinds": kinds, "got": got, "want": want})
